@@ -112,7 +112,7 @@ func registerIntrinsics(m *Machine) {
 	I["vf:vfChoice"] = func(m *Machine, fr *frame, a []Value) Value {
 		n := m.asInt(a[1], "vfChoice n")
 		k := m.path.Choice(n)
-		m.path.choices = append(m.path.choices, [2]string{m.argStr(a[0]), strconv.Itoa(k)})
+		m.path.choices = append(m.path.choices, [2]string{m.argStr(a[0]), strconv.FormatInt(int64(k), 16)})
 		return c.Const(64, uint64(k))
 	}
 	I["vf:vfCase"] = func(m *Machine, fr *frame, a []Value) Value {
